@@ -600,29 +600,268 @@ Proof.
   - constructor; [|constructor]. intros Hf. vm_compute in Hf. discriminate Hf.
 Qed.
 
+
+(** ** the type-system half: builder/type_system/*.rs *)
+
+Lemma safe_description p : isok R_Description ANon p -> safe (build_description inp file p).
+Proof.
+  intros H. open_pair p H. steps. unfold build_description. slots.
+  apply safe_bind; [eapply safe_string_value; by_isok|intros; exact I].
+Qed.
+
+Lemma safe_description_opt o : (forall d, o = Some d -> isok R_Description ANon d) -> safe (build_description_opt inp file o).
+Proof. intros H. unfold build_description_opt. apply safe_omapM. intros x Hx. apply safe_description. apply H. exact Hx. Qed.
+
+Ltac solve_safe3 :=
+  first [ solve_safe2
+        | apply safe_description_opt; let d := fresh in let Hd := fresh in intros d Hd; inv Hd; by_isok
+        | apply safe_description_opt; let d := fresh in let Hd := fresh in intros d Hd; discriminate Hd
+        | apply safe_description; by_isok ].
+
+Lemma safe_input_value_definition p : isok R_InputValueDefinition ANon p -> safe (build_input_value_definition inp file p).
+Proof.
+  intros H. open_pair p H. steps; unfold build_input_value_definition; slots;
+    repeat (apply safe_bind; [|intros ? _]); solve_safe3.
+Qed.
+
+Lemma safe_ivd_list kids : Forall (isok R_InputValueDefinition ANon) kids ->
+  safe (mapM (build_input_value_definition inp file) kids).
+Proof. intros Hk. apply safe_mapM. eapply Forall_impl; [|exact Hk]. intros x Hx. apply safe_input_value_definition. exact Hx. Qed.
+
+Lemma safe_arguments_definition p : isok R_ArgumentsDefinition ANon p -> safe (build_arguments_definition inp file p).
+Proof.
+  intros H. open_pair p H. steps.
+  match goal with H : Shape.gent _ _ _ _ (Plus (Call R_InputValueDefinition)) _ _ |- _ =>
+    apply (plus_call_isok true ANon R_InputValueDefinition eq_refl) in H; rename H into Hk end.
+  unfold build_arguments_definition, all_children. cbn [pair_kids]. rewrite (forall_isok_is_rule _ _ _ Hk).
+  apply safe_ivd_list. exact Hk.
+Qed.
+
+Lemma safe_input_fields_definition p : isok R_InputFieldsDefinition ANon p -> safe (build_input_fields_definition inp file p).
+Proof.
+  intros H. open_pair p H. steps.
+  match goal with H : Shape.gent _ _ _ _ (Plus (Call R_InputValueDefinition)) _ _ |- _ =>
+    apply (plus_call_isok true ANon R_InputValueDefinition eq_refl) in H; rename H into Hk end.
+  unfold build_input_fields_definition, all_children. cbn [pair_kids]. rewrite (forall_isok_is_rule _ _ _ Hk).
+  apply safe_ivd_list. exact Hk.
+Qed.
+
+Ltac solve_safe4 :=
+  first [ solve_safe3
+        | apply safe_arguments_definition; by_isok
+        | apply safe_input_fields_definition; by_isok
+        | apply safe_omapM; let y := fresh in let Hy := fresh in intros y Hy; inv Hy; solve_safe4 ].
+
+Lemma safe_fields_definition p : isok R_FieldsDefinition ANon p -> safe (build_fields_definition inp file p).
+Proof.
+  intros H. open_pair p H. steps.
+  match goal with H : Shape.gent _ _ _ _ (Plus (Call R_FieldDefinition)) _ _ |- _ =>
+    apply (plus_call_isok true ANon R_FieldDefinition eq_refl) in H; rename H into Hk end.
+  unfold build_fields_definition, all_children. cbn [pair_kids]. rewrite (forall_isok_is_rule _ _ _ Hk).
+  apply safe_mapM. eapply Forall_impl; [|exact Hk]. intros x Hf.
+  open_pair x Hf. steps; slots; repeat (apply safe_bind; [|intros ? _]); solve_safe4.
+Qed.
+
+Lemma safe_fields_definition_opt o : (forall d, o = Some d -> isok R_FieldsDefinition ANon d) ->
+  safe (build_fields_definition_opt inp file o).
+Proof. destruct o as [d|]; intros H; cbn [build_fields_definition_opt]; [apply safe_fields_definition; apply H; reflexivity|exact I]. Qed.
+
+Lemma safe_enum_value_definition p : isok R_EnumValueDefinition ANon p -> safe (build_enum_value_definition inp file p).
+Proof.
+  intros H. open_pair p H. steps; unfold build_enum_value_definition; slots;
+    repeat (apply safe_bind; [|intros ? _]); solve_safe3.
+Qed.
+
+Lemma safe_enum_values p : isok R_EnumValuesDefinition ANon p -> safe (build_enum_values_opt inp file (Some p)).
+Proof.
+  intros H. open_pair p H. steps.
+  match goal with H : Shape.gent _ _ _ _ (Plus (Call R_EnumValueDefinition)) _ _ |- _ =>
+    apply (plus_call_isok true ANon R_EnumValueDefinition eq_refl) in H; rename H into Hk end.
+  unfold build_enum_values_opt, all_children. cbn [pair_kids]. rewrite (forall_isok_is_rule _ _ _ Hk).
+  apply safe_mapM. eapply Forall_impl; [|exact Hk]. intros x Hx. apply safe_enum_value_definition. exact Hx.
+Qed.
+
+(** lists  X (sep X)*  : every recorded pair is an X *)
+Lemma sep_list_isok sep r t ps :
+  rule_records G r ANon = true ->
+  gent true ANon (Star (Seq (Lit sep) (Call r))) t ps -> Forall (isok r ANon) ps.
+Proof.
+  intros Hr H. eapply star_forall; [|exact H].
+  intros t' ps' H'. inv H'.
+  repeat match goal with
+  | H : Shape.gent _ _ _ _ (Lit _) _ _ |- _ => inv H
+  | H : Shape.tskip _ _ _ _ _ ?p |- _ => apply skip_nopairs in H; subst p
+  end. cbn [app]. eapply call_isok; eassumption.
+Qed.
+
+Lemma safe_implements p : isok R_ImplementsInterfaces ANon p -> safe (build_implements_interfaces inp file p).
+Proof.
+  intros H. open_pair p H. steps;
+    match goal with H : Shape.gent _ _ _ _ (Star (Seq (Lit _) (Call R_NamedType))) _ _ |- _ =>
+      apply (sep_list_isok _ R_NamedType _ _ eq_refl) in H; rename H into Hk end;
+    unfold build_implements_interfaces; cbn [pair_kids]; slots;
+    apply safe_mapM; constructor;
+      try (match goal with |- safe (if is_rule _ _ then _ else _) => slots; exact I end);
+      (eapply Forall_impl; [|exact Hk]); intros x Hx; rewrite (isok_is_rule _ _ _ Hx); exact I.
+Qed.
+
+Lemma safe_implements_opt o : (forall d, o = Some d -> isok R_ImplementsInterfaces ANon d) ->
+  safe (build_implements_opt inp file o).
+Proof. destruct o as [d|]; intros H; cbn [build_implements_opt]; [apply safe_implements; apply H; reflexivity|exact I]. Qed.
+
+Lemma safe_union_members p : isok R_UnionMemberTypes ANon p -> safe (build_union_members_opt inp file (Some p)).
+Proof.
+  intros H. open_pair p H. steps;
+    match goal with H : Shape.gent _ _ _ _ (Star (Seq (Lit _) (Call R_NamedType))) _ _ |- _ =>
+      apply (sep_list_isok _ R_NamedType _ _ eq_refl) in H; rename H into Hk end;
+    unfold build_union_members_opt, all_children; cbn [pair_kids forallb]; slots;
+    rewrite (forall_isok_is_rule _ _ _ Hk); exact I.
+Qed.
+
+Ltac solve_safe5 :=
+  first [ solve_safe4
+        | exact I
+        | apply safe_fields_definition_opt; let d := fresh in let Hd := fresh in intros d Hd; first [discriminate Hd | inv Hd; by_isok]
+        | apply safe_implements_opt; let d := fresh in let Hd := fresh in intros d Hd; first [discriminate Hd | inv Hd; by_isok]
+        | apply safe_enum_values; by_isok
+        | apply safe_union_members; by_isok
+        | apply safe_input_fields_definition; by_isok ].
+
+Lemma safe_type_definition p : isok R_TypeDefinition ANon p -> safe (build_type_definition inp file p).
+Proof.
+  intros H. open_pair p H. steps; unfold build_type_definition; cbn [only_child pair_kids pair_rule].
+  - open_kid R_ScalarTypeDefinition. steps; slots; repeat (apply safe_bind; [|intros ? _]); solve_safe5.
+  - open_kid R_ObjectTypeDefinition. steps; slots; repeat (apply safe_bind; [|intros ? _]); solve_safe5.
+  - open_kid R_InterfaceTypeDefinition. steps; slots; repeat (apply safe_bind; [|intros ? _]); solve_safe5.
+  - open_kid R_UnionTypeDefinition. steps; slots; repeat (apply safe_bind; [|intros ? _]); solve_safe5.
+  - open_kid R_EnumTypeDefinition. steps; slots; repeat (apply safe_bind; [|intros ? _]); solve_safe5.
+  - open_kid R_InputObjectTypeDefinition. steps; slots; repeat (apply safe_bind; [|intros ? _]); solve_safe5.
+Qed.
+
+Lemma safe_type_extension p : isok R_TypeExtension ANon p -> safe (build_type_extension inp file p).
+Proof.
+  intros H. open_pair p H. steps; unfold build_type_extension; cbn [only_child pair_kids pair_rule].
+  - open_kid R_ScalarTypeExtension. steps; slots; repeat (apply safe_bind; [|intros ? _]); solve_safe5.
+  - open_kid R_ObjectTypeExtension. steps; slots; repeat (apply safe_bind; [|intros ? _]); solve_safe5.
+  - open_kid R_InterfaceTypeExtension. steps; slots; repeat (apply safe_bind; [|intros ? _]); solve_safe5.
+  - open_kid R_UnionTypeExtension. steps; slots; repeat (apply safe_bind; [|intros ? _]); solve_safe5.
+  - open_kid R_EnumTypeExtension. steps; slots; repeat (apply safe_bind; [|intros ? _]); solve_safe5.
+  - open_kid R_InputObjectTypeExtension. steps; slots; repeat (apply safe_bind; [|intros ? _]); solve_safe5.
+Qed.
+
+Lemma safe_root_operation_types p : isok R_RootOperationTypeDefinitions ANon p ->
+  safe (build_root_operation_type_definitions inp file p).
+Proof.
+  intros H. open_pair p H. steps.
+  match goal with H : Shape.gent _ _ _ _ (Plus (Call R_RootOperationTypeDefinition)) _ _ |- _ =>
+    apply (plus_call_isok true ANon R_RootOperationTypeDefinition eq_refl) in H; rename H into Hk end.
+  unfold build_root_operation_type_definitions, all_children. cbn [pair_kids]. rewrite (forall_isok_is_rule _ _ _ Hk).
+  apply safe_mapM. eapply Forall_impl; [|exact Hk]. intros x Hf.
+  open_pair x Hf. steps. slots. apply safe_bind; [apply operation_type_text; assumption|intros; exact I].
+Qed.
+
+Lemma safe_schema_definition p : isok R_SchemaDefinition ANon p -> safe (build_schema_definition inp file p).
+Proof.
+  intros H. open_pair p H. steps; unfold build_schema_definition; slots;
+    repeat (apply safe_bind; [|intros ? _]); first [apply safe_root_operation_types; by_isok | solve_safe5].
+Qed.
+
+Lemma safe_schema_extension p : isok R_SchemaExtension ANon p -> safe (build_schema_extension inp file p).
+Proof.
+  intros H. open_pair p H. steps; unfold build_schema_extension; slots;
+    repeat (apply safe_bind; [|intros ? _]); first [apply safe_root_operation_types; by_isok | solve_safe5].
+Qed.
+
+Lemma safe_directive_locations s e kids : okx ANon (Pair R_DirectiveLocations s e kids) ->
+  forallb (is_rule R_DirectiveLocation) kids = true.
+Proof.
+  intros H. open_okx H. steps;
+    match goal with H : Shape.gent _ _ _ _ (Star (Seq (Lit _) (Call R_DirectiveLocation))) _ _ |- _ =>
+      apply (sep_list_isok _ R_DirectiveLocation _ _ eq_refl) in H; rename H into Hk end;
+    cbn [forallb]; slots; apply (forall_isok_is_rule _ _ _ Hk).
+Qed.
+
+Lemma safe_directive_definition p : isok R_DirectiveDefinition ANon p -> safe (build_directive_definition inp file p).
+Proof.
+  intros H. open_pair p H. steps; unfold build_directive_definition; slots;
+    repeat (apply safe_bind; [|intros ? _]);
+    first [ solve_safe5
+          | unfold all_children; cbn [pair_kids];
+            match goal with H : Shape.okx _ _ _ (Pair R_DirectiveLocations _ _ _) |- _ => rewrite (safe_directive_locations _ _ _ H) end; exact I ].
+Qed.
+
+Lemma safe_ts_definition_or_extension p : isok R_TypeSystemDefinitionOrExtension ANon p ->
+  safe (build_type_system_definition_or_extension inp file p).
+Proof.
+  intros H. open_pair p H. steps; unfold build_type_system_definition_or_extension; cbn [only_child pair_kids pair_rule].
+  - open_kid R_TypeSystemDefinition. steps; cbn [only_child pair_kids pair_rule];
+      (apply safe_bind; [|intros; exact I]);
+      first [apply safe_schema_definition; by_isok | apply safe_type_definition; by_isok | apply safe_directive_definition; by_isok].
+  - open_kid R_TypeSystemExtension. steps; cbn [only_child pair_kids pair_rule];
+      (apply safe_bind; [|intros; exact I]);
+      first [apply safe_schema_extension; by_isok | apply safe_type_extension; by_isok].
+Qed.
+
+Lemma safe_type_system_document ps t :
+  gent true ANon (Call R_TypeSystemExtensionDocument) t ps -> safe (build_type_system_document inp file ps).
+Proof.
+  intros H. inv_call H.
+  match goal with H : Shape.okx _ _ _ (Pair R_TypeSystemExtensionDocument _ _ _) |- _ => open_okx H end. steps.
+  match goal with H : Shape.gent _ _ _ _ (Plus (Call R_TypeSystemDefinitionOrExtension)) _ _ |- _ =>
+    apply (plus_call_isok true ANon R_TypeSystemDefinitionOrExtension eq_refl) in H; rename H into Hk end.
+  unfold build_type_system_document. cbn [pair_rule pair_kids].
+  apply safe_mapM. apply forall_filter. apply Forall_app. split.
+  - eapply Forall_impl; [|exact Hk]. intros x Hx _. apply safe_ts_definition_or_extension. exact Hx.
+  - constructor; [|constructor]. intros Hf. vm_compute in Hf. discriminate Hf.
+Qed.
+
 End Safe.
 
 Lemma pp_unfold start inp : parse_pairs start inp = parse_with G (default_fuel inp) start inp.
 Proof. reflexivity. Qed.
 
-Lemma of_parse {A} (o : outcome (list pr)) (b : list pr -> bres A) :
-  (forall ps, o = Ok ps -> safe (b ps)) ->
-  forall k, match o with Ok ps => of_bres (b ps) | Fail => PErr | OutOfFuel => PFuel end = PPanic k ->
-  k = P_char \/ k = P_radix.
-Proof.
-  intros Hs k H. destruct o as [ps| |]; try discriminate H.
-  specialize (Hs ps eq_refl). destruct (b ps) as [d|k']; cbn [of_bres] in H; [discriminate H|].
-  inversion H; subst. exact Hs.
-Qed.
+Lemma pod_unfold file inp :
+  parse_operation_document file inp =
+  match parse_pairs R_ExecutableDocument inp with
+  | Ok ps => of_bres (build_operation_document inp file ps)
+  | Fail => PErr
+  | OutOfFuel => PFuel
+  end.
+Proof. reflexivity. Qed.
+
+Lemma ptd_unfold file inp :
+  parse_type_system_document file inp =
+  match parse_pairs R_TypeSystemExtensionDocument inp with
+  | Ok ps => of_bres (build_type_system_document inp file ps)
+  | Fail => PErr
+  | OutOfFuel => PFuel
+  end.
+Proof. reflexivity. Qed.
+
+Local Opaque parse_pairs parse_with.
 
 (** for every text: if the parser model's outcome is a panic, it is one of the two value-level panics of
     string escapes -- never a shape panic of the builder, never "Empty document" *)
 Theorem builder_shapes_ok : forall inp file k,
   parse_operation_document file inp = PPanic k -> k = P_char \/ k = P_radix.
 Proof.
-  intros inp file k H.
-  apply (of_parse (parse_pairs R_ExecutableDocument inp) (build_operation_document inp file)); [|exact H].
-  intros ps E. rewrite pp_unfold in E.
+  intros inp file k H. rewrite pod_unfold in H.
+  destruct (parse_pairs R_ExecutableDocument inp) as [ps| |] eqn:E; try discriminate H.
+  rewrite pp_unfold in E.
   destruct (parse_gent _ _ _ _ E) as [t Hg].
-  exact (safe_operation_document inp file ps t Hg).
+  pose proof (safe_operation_document inp file ps t Hg) as Hs.
+  destruct (build_operation_document inp file ps) as [d|k']; cbn [of_bres] in H; [discriminate H|].
+  inversion H; subst. exact Hs.
+Qed.
+
+Theorem builder_shapes_ok_ts : forall inp file k,
+  parse_type_system_document file inp = PPanic k -> k = P_char \/ k = P_radix.
+Proof.
+  intros inp file k H. rewrite ptd_unfold in H.
+  destruct (parse_pairs R_TypeSystemExtensionDocument inp) as [ps| |] eqn:E; try discriminate H.
+  rewrite pp_unfold in E.
+  destruct (parse_gent _ _ _ _ E) as [t Hg].
+  pose proof (safe_type_system_document inp file ps t Hg) as Hs.
+  destruct (build_type_system_document inp file ps) as [d|k']; cbn [of_bres] in H; [discriminate H|].
+  inversion H; subst. exact Hs.
 Qed.
